@@ -167,3 +167,13 @@ func (s *MStream) Close() error {
 	s.Closed++
 	return nil
 }
+
+// Sha256_Sum256: one-shot digest through the same model.
+func Sha256_Sum256(data []byte) [32]byte {
+	h := &MHash{}
+	_, _ = h.Write(data)
+	s := h.Sum(nil)
+	var out [32]byte
+	copy(out[:], s)
+	return out
+}
